@@ -200,7 +200,7 @@ func sameFields(g *ssh.Certificate, r *cr.Cert) string {
 func run(c *vf.Ctx) {
 	c.Rule("A: type{1,2,0,3} x principals{none,match,other,other+match,''} x (after,before) in {0,now-1,now,now+1,2^63-1,2^63,2^64-1}^2 x critical{none,supported,unsupported,source-address,supported+unsupported} x extensions{none,flag,valued+flag} " +
 		"x CA{trusted,unknown} x signature{good,bad} x revocation{nil,false,true} x {CheckCert,Authenticate,CheckHostKey} at clock now for key pairings {ed25519/ed25519 CA, rsa/ecdsa CA} (thorough: also clocks 1 and 2^40 and ecdsa/rsa CA), plus side grids (clock nil/0/1, nil authority callbacks, plain keys, 5 signature faults, nonce lengths); " +
-		"B: SignCert with CA{ed25519,rsa default,rsa [rsa-sha2-256],[ssh-rsa],p256,p384,p521} x subject{rsa,p256,p384,p521,ed25519,sk-ecdsa,sk-ed25519} x 4 field shapes byte-for-byte against the reference encoder, ssh-keygen -s certificates; " +
+		"B: SignCert with CA{ed25519,rsa default,rsa [rsa-sha2-256],[ssh-rsa],p256,p384,p521, 5 value-class CAs} x subject{rsa,p256,p384,p521,ed25519,sk-ecdsa,sk-ed25519, 13 value classes: point coordinates one/two bytes short, ed25519 public key starting 00/0000, 1039-bit rsa} x 4 field shapes byte-for-byte against the reference encoder, ssh-keygen -s certificates; " +
 		"C: every non-canonical re-encoding kind x position of 6 valid base certificates x {signature kept, re-signed} x 3 entry points; D: certificate as CA; " +
 		"non-trivial = distinct (part, entry point, reference reason or acceptance, boundary classes / re-encoding kind); oracle = reference certificate model (PROTOCOL.certkeys) verifying the CA signature over the received bytes")
 	c.Assume("standard library signature primitives are correct; the reference decision uses unsigned 64-bit time comparison as PROTOCOL.certkeys / OpenSSH do (confirmed with ssh-keygen -Y verify for valid-before 2^63 and 2^64-2)")
@@ -555,6 +555,38 @@ type detRand struct{ r *vf.Rand }
 
 func (d detRand) Read(p []byte) (int, error) { return d.r.Read(p) }
 
+// fromClass wraps a boundary value-class key (detkeys.Classes).
+func fromClass(ck detkeys.ClassKey) *signerKey {
+	switch {
+	case ck.RSA != nil:
+		p := ck.RSA
+		return &signerKey{name: ck.Name, pub: sr.FromRSA(&p.PublicKey), priv: p, det: true, sign: func(f string, tbs []byte) sr.Sig {
+			if f == "" {
+				f = sr.RSASHA512
+			}
+			return sr.SignRSA(p, f, tbs)
+		}}
+	case ck.ECDSA != nil:
+		p := ck.ECDSA
+		return &signerKey{name: ck.Name, pub: sr.FromECDSA(&p.PublicKey), priv: p, sign: func(f string, tbs []byte) sr.Sig { return sr.SignECDSA(rand.Reader, p, tbs) }}
+	}
+	p := ck.Ed25519
+	return &signerKey{name: ck.Name, pub: sr.FromEd25519(p.Public().(ed25519.PublicKey)), priv: p, det: true, sign: func(f string, tbs []byte) sr.Sig { return sr.SignEd25519(p, tbs) }}
+}
+
+// classKeys: value classes used as certified keys and as CA keys (leading zero bytes in
+// point coordinates / public keys, RSA modulus without sign pad).
+func classKeys(seed string) map[string]*signerKey {
+	out := map[string]*signerKey{}
+	for _, ck := range detkeys.Classes(seed) {
+		out[ck.Name] = fromClass(ck)
+	}
+	return out
+}
+
+var classSubjects = []string{"p256-point-x1", "p256-point-y1", "p256-point-xy1", "p256-point-x2", "p256-point-y2", "p384-point-x1", "p384-point-y2", "p521-point-x1", "p521-point-xy1", "p521-point-x2",
+	"ed25519-public-1-zero-byte", "ed25519-public-2-zero-bytes", "rsa1039-n-and-q-unpadded"}
+
 func subjects(seed string) []*signerKey {
 	skE := detkeys.ECDSA(elliptic.P256(), seed+"skE")
 	skD := detkeys.Ed25519(seed + "skD")
@@ -585,6 +617,18 @@ func partB(e *env, seed string) {
 		{"ecdsa521", ecSK(elliptic.P521(), seed+"ca"), nil, sr.ECDSA521},
 	}
 	subs := subjects(seed)
+	nStd := len(subs)
+	ck := classKeys(seed)
+	for _, n := range classSubjects {
+		subs = append(subs, ck[n])
+	}
+	for _, n := range []string{"p256-point-xy1", "p384-point-x1", "p521-point-y1", "ed25519-public-2-zero-bytes", "rsa1039-n-and-q-unpadded"} {
+		f := ck[n].pub.Type
+		if f == sr.RSA {
+			f = ""
+		}
+		cas = append(cas, caCfg{"class " + n, ck[n], nil, f})
+	}
 	type job struct {
 		ca  caCfg
 		sub *signerKey
@@ -693,6 +737,9 @@ func partB(e *env, seed string) {
 			c.Sample(map[string]any{"part": "B", "ca": j.ca.name, "subject": j.sub.name, "shape": j.sh.name, "bytes": len(b), "signature_format": sg.Format})
 		}
 	})
+	if !c.Thorough {
+		subs = append(append([]*signerKey{}, subs[:nStd]...), ck["p256-point-xy1"], ck["p521-point-x2"])
+	}
 	partBKeygen(e, seed, subs)
 }
 
